@@ -16,8 +16,10 @@ PROP = dict(
                "trace checker that keeps the extreme saturation reached so far demands the drainage curve (a second manager built "
                "from the same deck without hysteresis) at or beyond that extreme, continuity of the scanning curve at the reversal "
                "point, monotone scanning curves, and for Carlson's model with identical curves equality with the model without "
-               "hysteresis at every step. Exploration is the right level: tables, end-point sets and histories are unbounded "
-               "spaces; the oracles are exact up to rounding.",
+               "hysteresis at every step; the extreme oil and gas saturations the manager keeps (oilWaterHysteresisParams / "
+               "gasOilHysteresisParams) must be the extremes of the history, i.e. the scanning curves start at the reversal point. A "
+               "third of the hysteresis cases carries two-point ENDSCALE with drainage and I-prefixed imbibition arrays. Exploration is "
+               "the right level: tables, end-point sets and histories are unbounded spaces; the oracles are exact up to rounding.",
     level_note="Trusts the parser to deliver the numbers written (shortest round-trip decimals are printed), the 30-line linear "
                "interpolation used to build the SOF3 rows, and the harness's own definition of the table end-points (connate = first, "
                "maximum = last saturation, critical = largest saturation of a phase with zero relative permeability, kr at the "
@@ -30,22 +32,28 @@ PROP = dict(
          "ordering constraints, random subset of SWL SWCR SWU SGL SGCR SGU SOWCR SOGCR KRW KRO KRG PCW PCG KRWR KRORW KRGR KRORG, "
          "SCALECRS YES/NO/absent, family I or II), 7-9 hysteresis (EHYSTR model 0..4 by case index, flag KR/BOTH, own imbibition "
          "tables in further regions selected by IMBNUM, or - Carlson only - identical curves through IMBNUM = SATNUM, IMBNUM -> "
-         "identical copy, IMBNUM absent; one history per cell in the oil-water (Sg = 0) or gas-oil (Sw = Swco) system). Tables: "
+         "identical copy, IMBNUM absent; one history per cell in the oil-water (Sg = 0) or gas-oil (Sw = Swco) system; 33% with "
+         "two-point ENDSCALE: SWL SWCR SWU SGCR SGU SOWCR SOGCR KRW KRO KRG arrays and I-prefixed arrays that mirror ISWL ISWU ISGU "
+         "IKRO IKRG and keep ISOWCR >= SOWCR, ISGCR >= SGCR). Two input classes with known findings are confined: saturations "
+         "beyond the anchor of the maximum in identity-scaled cells whose table kr at the displacing-critical saturation equals its "
+         "maximum while a KRWR/KRORW/KRGR/KRORG array is present are compared only in eps cases with (index/10)%10 == 0 (counted "
+         "as skipped elsewhere); decks with I-prefixed arrays but without IMBNUM are generated only in hysteresis cases with "
+         "(index/10)%4 == 0. Tables: "
          "3..14 rows on a 1/200 saturation lattice, Swco 0 or 0.02..0.35, 1..3 leading/trailing zero rows, plateaus with 10% "
          "probability per row (none in the hysteresis class), zero-pc tables 12%, last Sw / last Sg short of 1 / 1-Swco in 30% / "
          "25%; 1..3 regions (1..2 with hysteresis), up to 3 extra cells, default/STONE1/STONE2 three-phase model (the oil value of "
          "the three-phase route is skipped for STONE1/2), METRIC/FIELD by case index. Non-trivial: both decks of the case are "
          "accepted and >= 300 (unscaled) / >= 30 (eps) comparisons or a complete history per cell (hyst) were made; distinct = "
          "distinct deck text.",
-    stages=[dict(harness="c15_satfunc", flavour="plain", cases={Q: 60000, T: 6000000}, timeout={Q: 900, T: 7200}, omp_threads=1),
+    stages=[dict(harness="c15_satfunc", flavour="plain", cases={Q: 60000, T: 5000000}, timeout={Q: 900, T: 10800}, omp_threads=1),
             dict(id="c15_satfunc_asan", harness="c15_satfunc", flavour="asan", cases={Q: 3000, T: 150000},
-                 timeout={Q: 900, T: 7200}, omp_threads=1)],
-    min_nontrivial={Q: 55000, T: 5500000},
-    coverage_floor=[("c15_satfunc", "comparisons", {Q: 500000000, T: 50000000000}),
-                    ("c15_satfunc", "comparisons_unscaled", {Q: 300000000, T: 30000000000}),
-                    ("c15_satfunc", "comparisons_eps", {Q: 100000000, T: 10000000000}),
-                    ("c15_satfunc", "history_steps", {Q: 8000000, T: 800000000}),
-                    ("c15_satfunc", "scanning_curves_sampled", {Q: 500000, T: 50000000})],
+                 timeout={Q: 900, T: 10800}, omp_threads=1)],
+    min_nontrivial={Q: 55000, T: 4500000},
+    coverage_floor=[("c15_satfunc", "comparisons", {Q: 500000000, T: 40000000000}),
+                    ("c15_satfunc", "comparisons_unscaled", {Q: 300000000, T: 25000000000}),
+                    ("c15_satfunc", "comparisons_eps", {Q: 100000000, T: 8000000000}),
+                    ("c15_satfunc", "history_steps", {Q: 8000000, T: 650000000}),
+                    ("c15_satfunc", "scanning_curves_sampled", {Q: 500000, T: 40000000})],
     not_decided=["three-phase interpolation (default blend within 1e-5 of Swco, STONE1, STONE2): the oil value of the three-phase "
                  "route is not compared there",
                  "shape of scaled curves between the end-points, monotonicity/bounds of scaled curves",
@@ -56,7 +64,8 @@ PROP = dict(
                  "horizontal shift is not unique there); wetting-phase kr and pc under hysteresis (Killough pc, EHYSTR flag BOTH, "
                  "and model 4 are exercised but only the non-wetting kr is judged; pc is compared only for Carlson with identical "
                  "curves and flag KR); WAG hysteresis",
-                 "hysteresis combined with end-point scaling",
+                 "hysteresis combined with three-point end-point scaling or with KRxR / PCW / PCG arrays (two-point scaling with "
+                 "saturation end-points and KRW/KRO/KRG is covered)",
                  "two-phase runs (EclTwoPhaseMaterial, SOF2), SLGOF, SGWFN, family III (GSF/WSF), SWOFLET/SGOFLET, JFUNC, ENPTVD/"
                  "ENKRVD depth tables, directional (KRNUMX.., IMBNUMX..) and irreversible scaling, SWATINIT/PPCWMAX, TOLCRIT "
                  "(non-zero kr values of the generated tables are >= 1e-3)"],
